@@ -2,8 +2,11 @@
 //@needs mlpgmtx_k
 // K-mlpg: MlpgAdjust::create — frame expansion, NODATA at unvoiced frames, shape (C01, C05, C11);
 // MlpgMatrix::par / MlpgGlobalVariance (C12).  Durations (structure) concrete, voicing data symbolic.
-//@harness name=create_shape_and_nodata tier=quick label=bounded(durations=[1,2],static-window) props=C01,C05,C11 timeout=900
+//@harness name=create_shape_all_voiced tier=quick label=bounded(durations=[1,2],static-window,concrete-voicing) props=C01,C05,C11 timeout=600
+//@harness name=create_shape_second_state_unvoiced tier=quick label=bounded(durations=[1,2],static-window,concrete-voicing) props=C01,C05,C11 timeout=600
+//@harness name=create_shape_first_state_unvoiced tier=quick label=bounded(durations=[1,2],static-window,concrete-voicing) props=C01,C05,C11 timeout=600
 //@harness name=create_zero_precision_at_edges tier=quick label=bounded(durations=[1,1,1],delta-window,concrete-data) props=C05 timeout=900
+//@harness name=hole_gv_switch_contract tier=quick label=bounded(2-states,durations=[1,2],concrete) props=C12 timeout=600
 //@harness name=par_without_gv_is_plain_solve tier=quick label=bounded(T=2) props=C12 timeout=600
 //@harness name=gv_no_eligible_frame_returns_input tier=quick label=bounded(T=2) props=C12 timeout=600
 use super::*;
@@ -11,14 +14,10 @@ use crate::model::voice::window::Window;
 
 fn static_windows() -> Windows { Windows::new(vec![Window::new(vec![1.0])]) }
 
-/// durations [1, 2] over two states: 3 rows of vector_length values; a frame carries NODATA
-/// iff its state's voicing weight is not above the threshold; rows follow the state order
-#[kani::proof]
-#[kani::unwind(8)]
-fn create_shape_and_nodata() {
-    let m0: f64 = kani::any();
-    let m1: f64 = kani::any();
-    let th: f64 = kani::any();
+/// durations [1, 2] over two states, one concrete voicing pattern per harness (a symbolic mask makes
+/// the iterator chains of create() intractable for CBMC, P19): 3 rows of vector_length values; a frame
+/// carries NODATA iff its state's voicing weight is not above the threshold; rows follow the state order
+fn shape_and_nodata(m0: f64, m1: f64, th: f64) {
     let windows = static_windows();
     let stream = StreamParameter::new(vec![
         (vec![MeanVari(1.0, 1.0)], m0),
@@ -31,8 +30,16 @@ fn create_shape_and_nodata() {
     // static window only: the ML trajectory is the state mean itself
     if m0 > th { assert!(out[0][0] == 1.0); } else { assert!(out[0][0] == NODATA); }
     if m1 > th { assert!(out[1][0] == 2.0 && out[2][0] == 2.0); } else { assert!(out[1][0] == NODATA && out[2][0] == NODATA); }
-    kani::cover!(m0 > th && !(m1 > th));
 }
+#[kani::proof]
+#[kani::unwind(8)]
+fn create_shape_all_voiced() { shape_and_nodata(0.9, f64::MAX, 0.5); kani::cover!(true); }
+#[kani::proof]
+#[kani::unwind(8)]
+fn create_shape_second_state_unvoiced() { shape_and_nodata(0.9, 0.5, 0.5); kani::cover!(true); }   // weight == threshold is unvoiced
+#[kani::proof]
+#[kani::unwind(8)]
+fn create_shape_first_state_unvoiced() { shape_and_nodata(0.1, 0.9, 0.5); kani::cover!(true); }
 
 fn check_params(windows: &Windows, parameters: Vec<Vec<MeanVari>>) -> MlpgMatrix {
     // captured argument of calc_wuw_and_wum for: 3 states x 1 frame, all voiced, windows {static, delta(3)},
@@ -96,5 +103,23 @@ fn gv_no_eligible_frame_returns_input() {
     let out = mlpg::MlpgGlobalVariance::new(mtx, vec![p[0], p[1]], &sw).apply_gv(gvm, gvv);
     assert!(out.len() == 2);
     assert!(out[0].to_bits() == p[0].to_bits() && out[1].to_bits() == p[1].to_bits());
+    kani::cover!(true);
+}
+
+/// hole `gv_switch` of Verus unit gvpar: the per-state GV switch expanded by the durations, then
+/// restricted to the voiced frames
+#[kani::proof]
+#[kani::unwind(8)]
+fn hole_gv_switch_contract() {
+    // concrete switch values (symbolic ones time out: flat_map / repeat / take / filter_map chains)
+    let sw: [bool; 2] = [true, false];
+    let gv_switch: &Vec<bool> = &vec![sw[0], sw[1]];
+    let durations: &[usize] = &[1, 2];
+    let mask: Mask = [true, false, true].into_iter().collect();
+    let msd_flag = &mask;
+    let r: Vec<bool> = /*@HOLE gv_switch@*/;
+    // frames: state0, state1, state1; the middle frame is unvoiced and dropped
+    assert!(r.len() == 2);
+    assert!(r[0] == sw[0] && r[1] == sw[1]);
     kani::cover!(true);
 }
